@@ -35,7 +35,8 @@ def main():
     for p in props:
         pid = p["id"]
         path = os.path.join(HERE, "vf", "props", pid.lower() + ".py")
-        if not os.path.exists(path) or pid in NOT_APPLICABLE:
+        ready = os.path.exists(path) and any(l.strip().startswith("READY = True") for l in open(path))
+        if not ready or pid in NOT_APPLICABLE:
             na.append({"property_id": pid, "reason": NOT_APPLICABLE.get(pid, "check not built yet in this round (design in DESIGN.md section 4)")})
             continue
         try:
